@@ -195,6 +195,8 @@ def space_f(tier: str):
                ("Highest", 1), ("Highest", 2), ("Lowest", 1), ("Lowest", 3), ("Threshold", ">=", 0.5), ("Threshold", "<", 0.5),
                ("Threshold", "==", 0.25), ("Threshold", "!=", 0.0), ("Threshold", ">", 0.0), ("Threshold", "<=", 0.25)]
     rows = rows + [(1.5, 0.25), (-0.75, 1.5)]
+    if tier == "quick":
+        rows = rows + [(NAN, 0.875), (0.25, NAN)]  # a NaN degree next to positive ones under every activation method
     for m in methods:
         for df in (("Centroid", 16), ("WeightedAverage", "Automatic"), ("Centroid", 16, "locked-inputs")):
             locked = len(df) == 3
@@ -207,8 +209,37 @@ def space_f(tier: str):
                            [R.block("rb", rules, "Minimum", "Maximum", "Minimum", activation=m)]), rows
 
 
-SPACES = {"A": space_a, "B": space_b, "C": space_c, "D": space_d, "E": space_e, "F": space_f}
-PARTS = {"A": 24, "B": 12, "C": 8, "D": 8, "E": 8, "F": 2}
+# ----- G ---------------------------------------------------------------------------------------------------------------
+def space_g(tier: str):
+    """Shared operator / defuzzifier INSTANCES: two outputs of different kinds (and ranges) defuzzified by one object."""
+    rows = grid(tier) if tier == "quick" else list(itertools.product([0.0, 0.25, 0.625, 1.0, NAN], repeat=2))
+    rules = [R.rule(P("x", (), "lo"), [("o1", (), "lo"), ("o2", (), "hi")]),
+             R.rule(("or", P("x", (), "hi"), P("y", (), "lo")), [("o2", (), "lo"), ("o1", (), "hi")], weight="0.500"),
+             R.rule(P("y", ("very",), "hi"), [("o1", (), "lo"), ("o2", (), "lo")])]
+    kinds = {
+        "ts": [R.shape("Constant", "lo", [0.25]), R.shape("Constant", "hi", [1.5])],
+        "tsukamoto": [R.shape("Ramp", "lo", [1.0, 0.0]), R.shape("Ramp", "hi", [0.0, 2.0])],
+        "inverse": [R.shape("Triangle", "lo", [0.0, 0.25, 0.5]), R.shape("Gaussian", "hi", [0.75, 0.25])],
+    }
+    for k1, k2 in itertools.permutations(kinds, 2):
+        for which in ("WeightedAverage", "WeightedSum"):
+            for g in (None, "Maximum"):
+                o1 = R.out_var("o1", 0.0, 2.0, terms=kinds[k1], aggregation=g, defuzzifier=(which, "Automatic"))
+                o2 = R.out_var("o2", 0.0, 2.0, terms=kinds[k2], aggregation=g, defuzzifier=(which, "Automatic"))
+                e = R.engine("G", [R.in_var("x"), R.in_var("y")], [o1, o2], [R.block("rb", rules, "Minimum", "Maximum", None)])
+                e["shared_objects"] = True
+                yield e, rows
+    for df in INTEGRAL:
+        for g, i in (("Maximum", "Minimum"), ("AlgebraicSum", "AlgebraicProduct"), ("Maximum", "Maximum")):
+            o1 = R.out_var("o1", 0.0, 1.0, aggregation=g, defuzzifier=(df, 16))
+            o2 = R.out_var("o2", -1.0, 3.0, aggregation=g, defuzzifier=(df, 16))
+            e = R.engine("G", [R.in_var("x"), R.in_var("y")], [o1, o2], [R.block("rb", rules, "Minimum", g, i)])
+            e["shared_objects"] = True
+            yield e, rows
+
+
+SPACES = {"A": space_a, "B": space_b, "C": space_c, "D": space_d, "E": space_e, "F": space_f, "G": space_g}
+PARTS = {"A": 24, "B": 12, "C": 8, "D": 8, "E": 8, "F": 2, "G": 2}
 
 
 def plan(tier: str, seed: int):
@@ -255,7 +286,7 @@ def summarize(tier: str, seed: int, merged: dict) -> dict:
     vac = [f"outcome class {k} is empty" for k in need if not c.get(k)]
     return {
         "rule": (
-            "sub-spaces A (7x9x7x9 operator assignments x integral defuzzifiers), B (20x20 input/output shape terms, "
+            "sub-spaces G (two outputs of different kinds / ranges sharing ONE defuzzifier and operator instance), A (7x9x7x9 operator assignments x integral defuzzifiers), B (20x20 input/output shape terms, "
             "Takagi-Sugeno, Tsukamoto, inverse Tsukamoto), C (all 2^10 enabled-flag assignments), D (output variables in "
             "antecedents: 10 aggregations x 6 rule orders x 2 block orders x activation methods), E (all antecedent trees "
             f"with <= {2 if tier == 'quick' else 3} leaves x 4 weights x 3 consequents x 2 operator pairs), F (16 activation "
